@@ -3,7 +3,7 @@ import GMGProofs.Lemmas.CycleSpec
 # Fixed points of the cycle specification (consistency of the correction scheme)
 core Lean only.
 -/
-namespace Cycle
+namespace MGCycle
 variable {V : Type}
 
 /-- the coarse levels `d0 ≤ l ≤ levels-1` map (zero iterate, zero right-hand side) to zero.
@@ -90,4 +90,4 @@ theorem excyc_exact (o : Ops V) (c : Cfg) (k : Kind) (fgs : Bool) (u f f1 : V) (
         (fun k' h => cyc_zero_zero o c 1 E.coarse _ k' 1 (Nat.le_refl _) h) hL k,
       E.add_prolong, hs]
 
-end Cycle
+end MGCycle
